@@ -904,12 +904,15 @@ impl EdnsData {
     }
 
     pub fn get_extended_dns_error(&self) -> Option<(EdeCode, String)> {
-        self.get_opt(&EDNS_EDE).map(|opt| {
-            (
-                EdeCode(u16::from_be_bytes([opt.data[0], opt.data[1]])),
-                String::from_utf8_lossy(&opt.data[2..]).into_owned(),
-            )
-        })
+        /* RFC8914: INFO-CODE is 16 bits, an option too short to hold it is ignored. */
+        self.get_opt(&EDNS_EDE)
+            .filter(|opt| opt.data.len() >= 2)
+            .map(|opt| {
+                (
+                    EdeCode(u16::from_be_bytes([opt.data[0], opt.data[1]])),
+                    String::from_utf8_lossy(&opt.data[2..]).into_owned(),
+                )
+            })
     }
 
     pub fn set_opt(&mut self, opt: EdnsOption) {
